@@ -30,7 +30,9 @@ BUDGET = {"quick": 30, "thorough": 600}      # image states (each runs every inv
 STRACE_EVERY = {"quick": 4, "thorough": 1}   # pair is straced iff (state+inv+seed) % N == 0
 BATCH = 64                                   # states materialised at a time
 WATCHDOG = 120
-REQUIRED_BASES = ["ext4_mmp", "ext4_quota", "ext4_orphanfile", "ext4_64groups"]
+# bases every run uses: MMP, quota, orphan file, many small groups (explicit -b), and two
+# groups of standard geometry (e2fsck finds the backup superblock by itself)
+REQUIRED_BASES = ["ext4_mmp", "ext4_quota", "ext4_orphanfile", "ext4_64groups", "ext4_1k_wide"]
 
 KINDS = ["journal_commit", "orphan_list", "corrupt_head", "error_fs", "sb_destroyed",
          "corrupt_used", "journal_ext", "quota_stale", "orphan_file", "mmp_fsck",
@@ -420,6 +422,7 @@ def eligible(kind, info):
     if kind == "quota_stale":
         return bool(info["ro_compat"] & RO_QUOTA)
     if kind == "sb_destroyed":
+        # the backup is where e2fsck guesses it (8 * blocksize blocks per group) or anywhere
         return info["ngroups"] >= 2
     return True
 
